@@ -312,6 +312,7 @@ class Interp:
             for st in rdef['body']:
                 op = st[0]
                 if op == 'wait':
+                    me.event('wait', rid, st[1])
                     inval = yield st[1]
                     rout, clock = inval
                 elif op == 'cwait':
@@ -419,15 +420,17 @@ class Interp:
             self.event('seed', rid, st[1])
         elif op == 'draw':
             self.event('draw', rid, st[1], self.draw(st[1]))
-        elif op == 'pause':
-            self.robj[st[1]].pause() if st[1] in self.robj else None
-            self.event('pause', rid, st[1])
-        elif op == 'resume':
-            self.robj[st[1]].resume() if st[1] in self.robj else None
-            self.event('resume', rid, st[1])
-        elif op == 'stop':
-            self.robj[st[1]].stop() if st[1] in self.robj else None
-            self.event('stop', rid, st[1])
+        elif op in ('pause', 'resume', 'stop'):
+            t = self.robj.get(st[1])
+            info = None
+            if t is not None:
+                info = {'pre': t.state.name, 'exc': None}
+                try:
+                    getattr(t, op)()
+                except Exception as e:
+                    info['exc'] = type(e).__name__
+                info['post'] = t.state.name
+            self.event(op, rid, st[1], info)
         elif op == 'csignal':
             self.event('csignal', rid, st[1])
             self.cond(st[1]).signal()
